@@ -47,12 +47,14 @@ D2ok == [a |-> {0,1}, b |-> {0,1}]
 P3e == <<"a","e">>
 K3e == [a |-> "int", e |-> "event"]
 D3e == [a |-> {0,1,9}, e |-> {1}]
+D3eb == [a |-> {0,1,9}, e |-> {1,9}]
 Peq == <<"a","b">>
 Keq == [a |-> "any", b |-> "int"]
 Deq == [a |-> {0,1,2,3,4,5}, b |-> {0,1}]
 ActsC03n == {"unwatch","set","update","trigger"}
 ActsC04n == {"set","update","updatectx","trigger","batch","discard"}
 ActsC05n == {"set","update","trigger","batch","discard","raise","raisebody"}
+ActsC02 == {"set","update","batch","watch"}
 ActsC03s == {"watch","set","update"}
 ActsAll == {"watch","unwatch","set","update","updatectx","trigger","batch","discard","raise","raisebody"}
 ActsC03 == {"watch","unwatch","set","update","trigger"}
